@@ -452,6 +452,7 @@ package server
 //@   modifies LockManager.refCount, LockManagerWaitQueue.*, LockManagerRingQueue.*, LockManagerPriorityRingQueue.*, LockManagerPriorityRingQueueNode.*, LockQueue.*, Lock.aofTime, Lock.command, Lock.data, Lock.isAof, Lock.manager, Lock.protocol, Lock.refCount, E_LJPserver_Lock, E_Pserver_Lock, E_Pserver_LockManagerPriorityRingQueueNode, E_int32
 
 //@ func (*LockDB).Lock
+//@   at call UpdateLockedLock assert C02.reenter.bound: implies(lockManager.locked == u32(atsection(lockManager.locked) + 1), currentLock.locked == u8(atsection(currentLock.locked) + 1) && atsection(currentLock.locked) <= command.Rcount && atsection(currentLock.locked) < 0xff && command.TimeoutFlag&0x0010 == 0)
 //@   at call FreeLockCommand assert C19.relock.frees-replaced: implies(calls(UpdateLockedLock) == 1, arg1 == atsection(currentLock.command) && currentLock.command == command)
 //@   at call PriorityMutex.Unlock assert C15.value.frame: implies(calls(ProcessLockData) == 0 && calls(ProcessAckLockData) == 0 && calls(ProcessRecoverLockData) == 0 && calls(RemoveLockManager) == 0 && calls(wakeUpWaitLocks) == 0 && calls(DoAckLock) == 0 && calls(doExpried) == 0 && calls(doTimeOut) == 0 && calls(cancelWaitLock) == 0, lockManager.currentData == atsection(lockManager.currentData))
 //@   at call ProcessLockResultCommand assert C15.reply.before: implies(calls(ProcessLockData) >= 1, arg5 == ghost.valueBefore[ref(lockManager)])
